@@ -1,5 +1,6 @@
 #!/usr/bin/env python3
-"""fold a seedcheck log into seeded/*/meta.json (check_result_latest, caught_by_latest)"""
+"""fold a seedcheck log into seeded/*/meta.json (check_result_latest, caught_by_latest); with --verifier-only as 2nd argument the log
+comes from `VERIF_NO_WITNESS=1 tool/seedcheck.sh ..` and is stored as check_result_verifier_only / caught_by_verifier_only"""
 import json, os, re, sys
 V = os.path.dirname(os.path.dirname(os.path.abspath(__file__)))
 for l in open(sys.argv[1]):
@@ -8,9 +9,11 @@ for l in open(sys.argv[1]):
         continue
     d = os.path.join(V, 'seeded', m.group(2))
     mj = json.load(open(os.path.join(d, 'meta.json')))
-    mj['check_result_latest'] = m.group(3) if m.group(3) in ('VIOLATION', 'UNDECIDED', 'OK') else m.group(3)
+    vo = len(sys.argv) > 2 and sys.argv[2] == '--verifier-only'
+    mj['check_result_verifier_only' if vo else 'check_result_latest'] = m.group(3)
     rest = l.split(' :: ', 2)[2] if l.count(' :: ') >= 2 else ''
     ids = re.findall(r'(?:FAILED-OBLIGATION|FAILING-INPUT) (\S+)', rest)
-    mj['caught_by_latest'] = ', '.join(ids[:3])
-    mj['check_output_latest'] = l.strip()[:500]
+    mj['caught_by_verifier_only' if vo else 'caught_by_latest'] = ', '.join(ids[:3])
+    if not vo:
+        mj['check_output_latest'] = l.strip()[:500]
     json.dump(mj, open(os.path.join(d, 'meta.json'), 'w'), indent=1)
